@@ -37,6 +37,8 @@ structure Pending where
   out : C11.Out := .nothing
   stLines : List (Nat × String) := []
   vals : List (Nat × List VarObs) := []
+  cbLine : String := ""
+  cbs : List Nat := []
 
 structure DSt where
   cfg : Cfg := ⟨[], []⟩
@@ -68,9 +70,11 @@ def finalize (st : DSt) : DSt :=
       let ms := fmtVarObs (svcObs (r.1.h.svcs.getD i { vars := [] }))
       let is := (p.stLines.find? (·.1 == i)).map (·.2) |>.getD "?"
       if ms = is then st else note { st with corrOk := false } s!"e{st.k} st{i} impl[{is}] model[{ms}]") st
+    let mcb := ",".intercalate (readCbs r.1 |>.map toString)
+    let st := if mcb = p.cbLine then st else note { st with corrOk := false } s!"e{st.k} cb impl[{p.cbLine}] model[{mcb}]"
     let vals := (List.range nsvc).map fun i =>
       ((p.vals.find? (·.1 == i)).map (·.2) |>.getD []).map fun o => (o.1, o.2.1)
-    { st with s := r.1, k := st.k + 1, cur := none, obs := { ev := p.ev, out := p.out, vals := vals } :: st.obs }
+    { st with s := r.1, k := st.k + 1, cur := none, obs := { ev := p.ev, out := p.out, vals := vals, cbs := p.cbs } :: st.obs }
 
 def stepLine (st : DSt) (toks : List String) : DSt :=
   match toks with
@@ -94,6 +98,9 @@ def stepLine (st : DSt) (toks : List String) : DSt :=
   | ["st", i, l] => (match st.cur, parseVarObs l, i.toNat? with
       | some p, some o, some i => { st with cur := some { p with stLines := p.stLines ++ [(i, l)], vals := p.vals ++ [(i, o)] } }
       | _, _, _ => bad st s!"bad st {l}")
+  | ["cb", l] => (match st.cur, (if l = "~" then some [] else (l.splitOn ",").mapM (·.toNat?)) with
+      | some p, some c => { st with cur := some { p with cbLine := l, cbs := c } }
+      | _, _ => bad st s!"bad cb {l}")
   | _ => bad st s!"bad line {toks}"
 
 /-- index of the first observation the judge rejects (diagnostics only) -/
@@ -101,7 +108,7 @@ def firstBad (decls : List (List Decl)) : JS → List Obs → Nat → Option (Na
   | _, [], _ => none
   | js, o :: rest, i =>
     if evInScope js o.ev then
-      if outOk o && valsOk decls (advance js o.ev) o.vals then firstBad decls (advance js o.ev) rest (i + 1)
+      if outOk o && valsOk decls (advance js o.ev) o.vals && cbsOk decls (advance js o.ev) o.cbs then firstBad decls (advance js o.ev) rest (i + 1)
       else some (i, advance js o.ev)
     else none
 
@@ -124,8 +131,8 @@ def main : IO UInt32 := do
         if !j then
           match firstBad st.decls {} obs 0 with
           | some (i, js) =>
-            let o := obs.getD i ⟨.start 0 0, .nothing, []⟩
-            notes := notes ++ [s!"judge e{i} out={fmtOut o.out} outOk={outOk o} vals={o.vals.map fun l => fmtVarObs (l.map fun p => (p.1, p.2, none))} granted={js.granted.map fun p => (p.1, ofS p.2)} seen={js.seen.length}"]
+            let o := obs.getD i ⟨.start 0 0, .nothing, [], []⟩
+            notes := notes ++ [s!"judge e{i} out={fmtOut o.out} outOk={outOk o} cbs={o.cbs} vals={o.vals.map fun l => fmtVarObs (l.map fun p => (p.1, p.2, none))} granted={js.granted.map fun p => (p.1, ofS p.2)} seen={js.seen.length}"]
           | none => pure ()
         if !allInScope {} (obs.map (·.ev)) then notes := notes ++ ["out-of-scope"]
         out.putStrLn s!"case {cur} corr={if st.corrOk && st.parseOk then "ok" else "MISMATCH"} judge={if j then "ok" else "FAIL"} {" ; ".intercalate notes}"
